@@ -170,7 +170,8 @@ func (d *Deque[T]) Item(i int) T {
 	if i < 0 || i >= d.Len() {
 		panic("deque index out of range")
 	}
-	idx := (d.front + i) % len(d.a)
+	// uint so that front+i cannot overflow when the backing slice is enormous.
+	idx := int((uint(d.front) + uint(i)) % uint(len(d.a)))
 	return d.a[idx]
 }
 
@@ -179,7 +180,7 @@ func (d *Deque[T]) Set(i int, t T) {
 	if i < 0 || i >= d.Len() {
 		panic("deque index out of range")
 	}
-	idx := (d.front + i) % len(d.a)
+	idx := int((uint(d.front) + uint(i)) % uint(len(d.a)))
 	d.a[idx] = t
 	d.gen++
 }
